@@ -44,10 +44,9 @@ def canon (kt vt : Ty) (es : List (Val × Val)) : Bytes :=
 inductive MRes
   | ok (entries : List (Val × Val)) (rest : Bytes)
   | err
-  | panic
 
-/-- the loop of `decodeMap`: key, value, `dstv.SetMapIndex` (which panics on a nil map) -/
-def decodeEntries (kt vt : Ty) (isNil : Bool) : Nat → Bytes → List (Val × Val) → MRes
+/-- the loop of `decodeMap`: key, value, `dstv.SetMapIndex` -/
+def decodeEntries (kt vt : Ty) : Nat → Bytes → List (Val × Val) → MRes
   | 0, bs, acc => .ok acc bs
   | n + 1, bs, acc =>
     match (C12.decodeA kt bs).res with
@@ -55,14 +54,14 @@ def decodeEntries (kt vt : Ty) (isNil : Bool) : Nat → Bytes → List (Val × V
     | some (k, r1) =>
       match (C12.decodeA vt r1).res with
       | none => .err
-      | some (v, r2) =>
-        if isNil then .panic else decodeEntries kt vt isNil n r2 (insertEntry k v acc)
+      | some (v, r2) => decodeEntries kt vt n r2 (insertEntry k v acc)
 
-/-- `decodeMap` into a nil or a made (empty) map -/
-def decodeMap (kt vt : Ty) (isNil : Bool) (bs : Bytes) : MRes :=
+/-- `decodeMap` into a nil or a made (empty) map: a nil destination is made first (after the
+    fix recorded in harness/C12/findings.json), so both behave alike -/
+def decodeMap (kt vt : Ty) (_isNil : Bool) (bs : Bytes) : MRes :=
   match C11.decodeUintV bs with
   | none => .err
-  | some (n, r) => decodeEntries kt vt isNil n r []
+  | some (n, r) => decodeEntries kt vt n r []
 
 /-- text of a map value `{k:v,k:v}` -/
 partial def pEntries (kt vt : ScaleText.GTy) (cs : List Char) : Option (List (Val × Val) × List Char) :=
@@ -100,7 +99,6 @@ def stepEnc (kts vts vals : String) : String :=
 def showM (kt vt : Ty) (data : Bytes) : MRes → String
   | .ok es r => s!"ok {hex (canon kt vt es)} {data.length - r.length}"
   | .err => "err"
-  | .panic => "panic"
 
 /-- driver for `mdec <kt> <vt> <hex> <nil|made>` -/
 def stepDec (kts vts h dst : String) : String :=
@@ -108,9 +106,7 @@ def stepDec (kts vts h dst : String) : String :=
   | some kg, some vg, some data =>
     let kt := kg.toTy
     let vt := vg.toTy
-    let model := showM kt vt data (decodeMap kt vt (dst == "nil") data)
-    let spec := showM kt vt data (decodeMap kt vt false data)
-    if model = spec then model else s!"{model}\tspec={spec}\tkf=map-nil-panic"
+    showM kt vt data (decodeMap kt vt (dst == "nil") data)
   | _, _, _ => "bad-op"
 
 end Gossamer.ScaleMap
